@@ -252,6 +252,19 @@ class Domain:
         """Evaluates the domain at the given data."""
         raise NotImplementedError
 
+    @staticmethod
+    def _bounds_over_all_params(bounds):
+        """Transformed domains (Translate, Rotate) return one bounding box per
+        parameter row. Reduces these to one box that contains all of them, in the
+        form [axis_1_min, axis_1_max, axis_2_min, ...] all other domains use.
+        """
+        bounds = torch.as_tensor(bounds)
+        if len(bounds.shape) == 2:
+            mins = torch.min(bounds[:, ::2], dim=0).values
+            maxs = torch.max(bounds[:, 1::2], dim=0).values
+            bounds = torch.stack((mins, maxs), dim=1).reshape(-1)
+        return bounds
+
     def len_of_params(self, params):
         """Finds the number of params, for which points should be sampled."""
         num_of_params = 1
